@@ -9,11 +9,14 @@ struct cds_lfht_node *lf_load_next(struct cds_lfht_node **addr)
 		if (k < G_n && k != G_dirty1 && k != G_dirty2) {
 			__CPROVER_assume(*addr == LF_TAG(LF_AT(LF_SUCC(k)), G_fl[k])); /*A:precondition-instantiation*/
 			__CPROVER_assume(G_fl[k] <= 7 && (!(G_fl[k] & 4) || (G_fl[k] & 1)) && (!G_noflags || k == G_flags_except || !(G_fl[k] & 5))); /*A:precondition-instantiation*/
-			__CPROVER_assume(k + 1 >= G_n || G_pool[k].reverse_hash <= G_pool[k + 1].reverse_hash); /*A:precondition-instantiation*/
+			__CPROVER_assume(LF_SUCC(k) >= G_n || G_pool[k].reverse_hash <= G_pool[LF_SUCC(k)].reverse_hash); /*A:precondition-instantiation*/
 			/* sortedness in transitive form, instance (k+1, witness) */
 			__CPROVER_assume(k + 1 >= G_n || G_w <= k + 1 || G_w >= G_n || G_pool[k + 1].reverse_hash <= G_pool[G_w].reverse_hash); /*A:precondition-instantiation*/
+#ifdef LF_PREFIX_COUNT
+			__CPROVER_assume(G_cnt[k + 1] == G_cnt[k] + (LIVE(k) ? 1UL : 0UL) && G_cnt[k] <= k); /*A:precondition-instantiation*/
+#endif
+			__CPROVER_assume(LF_SUCC(k) >= G_n || G_w2 <= LF_SUCC(k) || G_w2 >= G_n || G_pool[LF_SUCC(k)].reverse_hash <= G_pool[G_w2].reverse_hash); /*A:precondition-instantiation*/
 			VERIF_COVER(k > 3);
-			VERIF_COVER(k > 3 && k + 1 == G_n);
 			return LF_TAG(LF_AT(LF_SUCC(k)), G_fl[k]);
 		}
 	}
@@ -44,9 +47,13 @@ static struct cds_lfht G_ht;
 static void lf_mk(void)
 {
 	G_n = nondet_ulong(); VERIF_REQUIRE(G_n >= 1 && G_n <= LF_MAXN);
+#ifdef LF_SMALL
+	G_pool = malloc((LF_MAXN + 2) * sizeof(*G_pool)); G_key = malloc((LF_MAXN + 2) * sizeof(*G_key)); G_fl = malloc(LF_MAXN + 2);
+#else
 	G_pool = malloc((G_n + 1) * sizeof(*G_pool)); G_key = malloc((G_n + 1) * sizeof(*G_key)); G_fl = malloc(G_n + 1);
+#endif
 	VERIF_REQUIRE(G_pool && G_key && G_fl);
-	G_dirty1 = G_dirty2 = ~0UL; G_noflags = 0; G_x = 0; G_cas_count = 0; G_unl = ~0UL; G_flags_except = ~0UL;
+	G_dirty1 = G_dirty2 = ~0UL; G_noflags = 0; G_x = 0; G_cas_count = 0; G_unl = ~0UL; G_flags_except = ~0UL; G_w2 = ~0UL;
 	G_s = nondet_ulong(); G_w = nondet_ulong(); G_b = 0;
 	VERIF_REQUIRE(G_s <= G_n && G_w < G_n);
 	G_ht.bucket_at = h_bucket_at;
